@@ -538,6 +538,12 @@ func dirMutation(R *Renderer, in ssa.Instruction) (string, bool) {
 			if cst, ok := strip(a[3]).(*ssa.Const); ok && cst.Value != nil && cst.Value.String() == "false" {
 				return "", false
 			}
+			// first creation of revision.counter (initial value 1): re-created identically by the next
+			// open if lost; made durable by construct's trailing writeVolumeMetaData — wherever the
+			// open is written (openRevisionFile or its caller)
+			if strings.Contains(R.V(a[0]), `"revision.counter"`) {
+				return "", false
+			}
 		}
 		return "NewDirectFileIoProcessor(create)", true
 	}
